@@ -1,6 +1,7 @@
 import NemoVerif.Drive.Common
 import NemoVerif.Models.Lifetime
 import NemoVerif.Models.LifetimeOps
+import NemoVerif.Models.LifetimeV
 
 namespace NemoVerif.Drive.C06
 open Lean NemoVerif NemoVerif.Drive NemoVerif.Lifetime
@@ -143,15 +144,21 @@ def handle (op : String) (j : Json) : Except String Json := do
     let extraA ← natList (← j.getObjVal? "newactions")
     let s := ops.foldl applyOp l.s
     pure (stateToJson { l with fuids := l.fuids ++ extraF, auids := l.auids ++ extraA } s)
+  -- abort / finish / endscope: the answer is the REPAIRED recursion (Models/LifetimeV.lean, visited set);
+  -- the answer of the as-is recursion travels along under "asis" (the harness checks that it is the same whenever
+  -- it is not `fuel`, i.e. whenever the as-is Python recursion terminates)
   | "abort" =>
     let l ← stateOfJson (← j.getObjVal? "st")
-    pure (resToJson l (abortFlow (← getNat j "fuel") l.s (← getNat j "uid") (← getBool j "d")))
+    let n ← getNat j "fuel"; let u ← getNat j "uid"; let d ← getBool j "d"
+    pure ((resToJson l (abortTopV n l.s u d)).setObjVal! "asis" (resToJson l (abortFlow n l.s u d)))
   | "finish" =>
     let l ← stateOfJson (← j.getObjVal? "st")
-    pure (resToJson l (finishFlow (← getNat j "fuel") l.s (← getNat j "uid") (← getBool j "d")))
+    let n ← getNat j "fuel"; let u ← getNat j "uid"; let d ← getBool j "d"
+    pure ((resToJson l (finishFlowV n l.s u d)).setObjVal! "asis" (resToJson l (finishFlow n l.s u d)))
   | "endscope" =>
     let l ← stateOfJson (← j.getObjVal? "st")
-    pure (resToJson l (endScope (← getNat j "fuel") l.s (← getNat j "uid") (← getNat j "name")))
+    let n ← getNat j "fuel"; let u ← getNat j "uid"; let nm ← getNat j "name"
+    pure ((resToJson l (endScopeV n l.s u nm)).setObjVal! "asis" (resToJson l (endScope n l.s u nm)))
   | "update" =>
     let l ← stateOfJson (← j.getObjVal? "st")
     let e : AEv := { uid := ← getNat j "auid", isAction := ← getBool j "isAction", started := ← getBool j "started",
